@@ -228,6 +228,28 @@ def main(tier, seed, replay=None):
     elif ch.startswith("raw"):
         raw.append({"what": "undocumented exception on a long subclass chain: " + ch, "case": "long chain"})
 
+    # a cyclic rdf:rest chain in the DATA graph is not a cause of failure at all: every shape that reports on (or walks
+    # into) such a blank node must still produce a report
+    cyc_data = CS.PFX + "ex:a a ex:Person ; ex:p _:l ; ex:q _:m . _:l rdf:first 1 ; rdf:rest _:l . _:m rdf:first ex:x ; rdf:rest [ rdf:first ex:y ; rdf:rest _:m ] ."
+    for nm, body in (("nodeKind", "sh:property [ sh:path ex:p ; sh:nodeKind sh:IRI ]"), ("in", "sh:property [ sh:path ex:q ; sh:in ( ex:x ) ]"),
+                     ("closed", "sh:closed true"), ("node", "sh:property [ sh:path ex:p ; sh:node [ sh:property [ sh:path rdf:first ; sh:datatype xsd:string ] ] ]"),
+                     ("rest*", "sh:property [ sh:path ( ex:q [ sh:zeroOrMorePath rdf:rest ] rdf:first ) ; sh:nodeKind sh:Literal ]"),
+                     ("sparql", 'sh:sparql [ sh:message "v {?value}" ; sh:select "SELECT $this ?value WHERE { $this <http://ex.org/p> ?value }" ]')):
+        try:
+            sgx = rdflib.Graph().parse(data=CS.PFX + "ex:CS a sh:NodeShape ; sh:targetClass ex:Person ; " + body + " .", format="turtle")
+            dgx = rdflib.Graph().parse(data=cyc_data, format="turtle")
+        except Exception as ex_:
+            raw.append({"what": "harness: cyclic-list data case did not parse: %s" % ex_, "case": nm})
+            continue
+        for opts in ({}, {"inplace": True}, {"advanced": True}):
+            ch, e = classify(lambda: pyshacl.validate(dgx, shacl_graph=sgx, **opts))
+            channels["cyclic-data:" + ch.split(":")[0]] = channels.get("cyclic-data:" + ch.split(":")[0], 0) + 1
+            if not ch.startswith("ok:"):
+                if ch.startswith("raw"):
+                    note_raw("cyclic rdf:rest chain in the data graph, shape " + nm, ch, e, CS.PFX + "ex:CS a sh:NodeShape ; sh:targetClass ex:Person ; " + body + " .", opts, cyc_data)
+                else:
+                    raw.append({"what": "a data graph with a cyclic rdf:rest chain made validate() fail (%s) instead of reporting" % ch, "case": nm, "data": cyc_data, "options": opts})
+
     # ---- CLI: the same causes through `python -m pyshacl`
     d = tempfile.mkdtemp(prefix="c16_", dir="/var/tmp")
     cli_bad, cli_runs = [], 0
